@@ -19,6 +19,10 @@ import (
 	jsonv1 "github.com/go-json-experiment/json/v1"
 )
 
+// c09IndentTimeout bounds one child call of v1.Indent.  It is deliberately generous: a short limit turns
+// scheduling delays on a loaded machine into false "hang" reports.
+const c09IndentTimeout = 45 * time.Second
+
 func init() {
 	subOps["c09-indent"] = func(args []string) {
 		if len(args) != 4 {
@@ -93,7 +97,7 @@ func c09RunSub(timeout time.Duration, name string, args ...string) (line string,
 
 // c09SubIndent runs v1.Indent in a child.  status: "ok" (out/errS valid), "timeout", "crash".
 func c09SubIndent(src []byte, prefix, indent string, pre []byte) (out []byte, errS string, status string) {
-	line, st := c09RunSub(2*time.Second, "c09-indent", hx(src), hx([]byte(prefix)), hx([]byte(indent)), hx(pre))
+	line, st := c09RunSub(c09IndentTimeout, "c09-indent", hx(src), hx([]byte(prefix)), hx([]byte(indent)), hx(pre))
 	if st != "ok" {
 		return nil, line, st
 	}
